@@ -112,6 +112,9 @@ def show_err(e):
             src = "cc"
         else:
             src = "sel"
+        if e.value is None:
+            # the command code itself is absent (a response whose command was never decoded): model: value 0, source "nocc"
+            return "V %s %s 0 nocc" % (spath(c.constraint_path), c.tpm_type.__name__)
         return "V %s %s %d %s" % (spath(c.constraint_path), c.tpm_type.__name__, int(e.value), src)
     if isinstance(e, AnticipatedSizeConstraintExceededError):
         return "A %s %s %d %d" % (info(e.constraint), spath(e.violator_path), int(e.violator_value), int(e.exceeded_by))
@@ -245,6 +248,39 @@ def run_obj(root, hexs):
         return show_obj(g.value)
     except Exception as e:  # noqa
         return "None"
+
+
+def run_objev(root, hexs):
+    """obj_to_events applied to the decoder's by-product object, one item per event (no pull counts)"""
+    from tpmstream.common.object import obj_to_events
+
+    t, kw = parse_root(root)
+    data = b"" if hexs == "-" else bytes.fromhex(hexs)
+
+    class G:
+        def __init__(self, g):
+            self.g = g
+            self.value = None
+
+        def __iter__(self):
+            self.value = yield from self.g
+
+    try:
+        g = G(Binary.marshal(tpm_type=t, buffer=data, abort_on_error=True, **kw))
+        for _ in g:
+            pass
+    except Exception:  # noqa
+        return "None"
+    if g.value is None:
+        return "None"
+    try:
+        out = []
+        for ev in obj_to_events(g.value):
+            v = "..." if ev.value is ... else str(int(ev.value))
+            out.append("E %s %s %s" % (spath(ev.path), tname(ev.type), v))
+        return ";".join(out)
+    except Exception as e:  # noqa
+        return "CRASH %s" % crash_name(e)
 
 
 def run_intops(name, v, w):
@@ -862,6 +898,8 @@ def handle(line):
         return run_dec(parts[2] == "1", parts[3], parts[4])
     if parts[0] == "obj":
         return run_obj(parts[2], parts[3])
+    if parts[0] == "objev":
+        return run_objev(parts[2], parts[3])
     if parts[0] == "int":
         return run_int(parts[2], parts[3])
     if parts[0] == "intops":
